@@ -64,3 +64,25 @@ CHECKS = {
         ],
     },
 }
+
+E1_ASSUME = [
+    "Track.ClockRate equals the container timescale (90000 video, sample rate AAC, 48000 Opus), as in every test and example of the repository",
+    "per-track non-decreasing DTS; the first random-access unit of H264/H265 carries its parameter sets in band; NAL units free of start-code emulation",
+    "H264 streams use pic_order_cnt_type 2 (dts = pts); pts != dts is exercised through H265 with VUI timing (mediacommon's DTS extractor is the reference for expected DTS)",
+    "scenarios with a boundary decision within 1 ns of SegmentMinDuration are skipped and counted (sub-nanosecond rounding is not fixed by the property)",
+    "media decoded with mediacommon (fMP4) and go-astits (MPEG-TS); playlists read with harness/m3u8x",
+]
+
+def e1(test, quick, thorough, **kw):
+    return {"steps": [REPLAYS, rapid("e1", test, quick, thorough, qshards=4, tshards=14, shrinktime="30s", timeout={"quick": 900, "thorough": 3000}, **kw)], "assumptions": E1_ASSUME}
+
+CHECKS.update({
+    "C01": e1("TestC01", 1200, 40000),
+    "C02": e1("TestC02", 1200, 40000),
+    "C03": e1("TestC03", 1000, 30000),
+    "C04": e1("TestC04", 240, 6000),
+    "C05": e1("TestC05", 400, 10000),
+    "C16": e1("TestC16", 1000, 30000),
+    "C18": e1("TestC18", 400, 8000),
+    "C19": e1("TestC19", 800, 30000),
+})
